@@ -451,10 +451,13 @@ def package_plan(root):
                 nm = c.func.id if isinstance(c.func, ast.Name) else c.func.attr if isinstance(c.func, ast.Attribute) else None
                 if nm:
                     plan["kwnames"].setdefault(nm, set()).update(k.arg for k in c.keywords if k.arg)
+    def _class_names(trees):
+        return {t_.id for t in trees for c in ast.walk(t) if isinstance(c, ast.ClassDef) for st in c.body if isinstance(st, ast.Assign)
+                for t_ in st.targets if isinstance(t_, ast.Name)}
     new_attrs = {n.attr for t in new.values() for n in ast.walk(t) if isinstance(n, ast.Attribute)} | \
-                {n.name for t in new.values() for n in ast.walk(t) if isinstance(n, FUNC)}
+                {n.name for t in new.values() for n in ast.walk(t) if isinstance(n, FUNC)} | _class_names(new.values())
     ref_attrs = {n.attr for t in ref.values() for n in ast.walk(t) if isinstance(n, ast.Attribute)} | \
-                {n.name for t in ref.values() for n in ast.walk(t) if isinstance(n, FUNC)}
+                {n.name for t in ref.values() for n in ast.walk(t) if isinstance(n, FUNC)} | _class_names(ref.values())
     # ---- A. renamed private functions / methods
     for rel in new:
         if rel not in ref:
@@ -553,6 +556,7 @@ def package_plan(root):
         taken.add(best[0])
         plan["notes"].append(f"attribute {a} is the reference's {best[0]} ({best[1]} aligned uses)")
     # ---- B. private module constants
+    attr_stores = {x.attr for t in new.values() for x in ast.walk(t) if isinstance(x, ast.Attribute) and isinstance(x.ctx, (ast.Store, ast.Del))}
     for rel in new:
         g_new = _module_globals(new[rel])
         g_ref = _module_globals(ref[rel]) if rel in ref else {}
@@ -576,7 +580,6 @@ def package_plan(root):
         # class-level private literal constants that the reference class does not have
         nd = _index(new[rel])
         rd = _index(ref[rel]) if rel in ref else {}
-        attr_stores = {x.attr for t in new.values() for x in ast.walk(t) if isinstance(x, ast.Attribute) and isinstance(x.ctx, (ast.Store, ast.Del))}
         for q, c in nd.items():
             if not isinstance(c, ast.ClassDef):
                 continue
@@ -651,6 +654,13 @@ def _apply_plan(tree, rel, plan):
             for m in c.body:
                 if isinstance(m, FUNC):
                     m._alpha_method = True
+            # class-level definitions of renamed private attributes
+            for st in c.body:
+                if isinstance(st, (ast.Assign, ast.AnnAssign)):
+                    for t in (st.targets if isinstance(st, ast.Assign) else [st.target]):
+                        if isinstance(t, ast.Name) and t.id in am:
+                            t.id = am[t.id]
+                            n_ += 1
             # __slots__ entries
             for st in c.body:
                 if isinstance(st, ast.Assign) and any(isinstance(t, ast.Name) and t.id == "__slots__" for t in st.targets):
